@@ -7,6 +7,6 @@ CONSTANTS
   TrafficChunk = 64
   MaxActive = 256
   TimingOn = FALSE
-  Modes = {"deferred"}
+  Modes = {"deferred", "detach"}
 INVARIANT TUniqueIds
 CHECK_DEADLOCK FALSE
